@@ -65,8 +65,10 @@ PROPS = {
                        "no out-of-bounds access, termination of both slice loops (decreases), and that js_path_process returns Ok for every well-formed "
                        "query (the state never becomes a Value at top level). validate_range is proved to accept exactly the I-JSON range. Kani probes "
                        "process_index without precondition (shows the I-JSON precondition is necessary: i64::MIN). Parser panics, stack depth and "
-                       "wall-clock time are outside this technique.",
-        "assumptions": COMMON_ASSUME + ["exec termination of the recursive evaluator is not claimed (exec_allows_no_decreases_clause); only the slice loops"],
+                       "parse time are outside both verifiers: bounded deep-nesting probes (one process each, 8 MiB stack, 20 s CPU limit; nesting depth "
+                       "<= 1024 must hold) stand in, and the two genuine defects they reproduce on the unchanged tree are recorded as known findings.",
+        "assumptions": COMMON_ASSUME + ["exec termination of the recursive evaluator is not claimed (exec_allows_no_decreases_clause); only the slice loops",
+                                         "stack depth is not modelled by Verus or Kani: the no-stack-exhaustion clause is bounded only (deep probes), with two open known findings"],
     },
     "C10": {
         "level": "other",
